@@ -954,7 +954,7 @@ def run(ctx) -> dict:
                r02_5(ctx, counts), r02_7(ctx, counts)]
     from .c05_purity import r05_8
     r6 = r05_8(ctx, counts)
-    r6.title = 'NO-MEMO-OF-LAZY-SNAPSHOT (R02.6 = R05.8)'
+    r6.title = 'NO-MEMO-OF-LAZY-SNAPSHOT (R02.6 = R05.9)'
     results.append(r6)
     return {
         'results': results, 'counts': counts,
